@@ -329,7 +329,9 @@ class InvRangesAssembler(RangesAssembler):
         for d in self.assembler.outputs.values():
             if isinstance(d, tuple):
                 c, r = d
-                res.append(value.value[r - int(base['r1']), c - base['n1']])
+                i, j = r - int(base['r1']), c - base['n1']
+                # 1x1 array: a bare `sh.EMPTY` would mean "no value".
+                res.append(value.value[i:i + 1, j:j + 1])
             else:
                 ranges = []
                 for n, r in d:
